@@ -20,7 +20,7 @@ def plan_items(tier: str, seed: int, *, n_gen_quick: int, n_gen_thorough: int, n
     n = n_quick if tier == "quick" else n_thorough
     shards = []
     for i, it in enumerate(items):
-        if it["kind"] in ("matrix", "handmade"):
+        if it["kind"] in ("matrix", "handmade") and not it.get("plugin_opts"):
             reps = 1 if tier == "quick" else 4
             parts = 12
             for r in range(reps):
